@@ -731,6 +731,8 @@ class SpecModel:
                     else:
                         return Opaque("map of an unmodelled callable")
                 return TupleV(out)
+            if f.name == "builtins.int" and len(args) == 1 and not kwargs and as_int(args[0]) is not None:
+                return as_int(args[0])
             if f.name == "functools.reduce" and len(args) in (2, 3) and not kwargs and isinstance(args[1], TupleV):
                 fn_, items = args[0], list(args[1].items)
                 if len(args) == 3:
@@ -898,6 +900,8 @@ class SpecModel:
                     and isinstance(st.targets[0].value, ast.Name) and isinstance(env.get(st.targets[0].value.id), ClassV):
                 env[st.targets[0].value.id].ns[st.targets[0].attr] = self._eval(st.value, env, mod, None)
                 continue
+            if isinstance(st, ast.Raise):
+                return ("return", Opaque(f"raises `{norm(st)[:60]}`"))   # (only when this statement is reached)
             if isinstance(st, ast.If):
                 t = self.hook_test(st.test, env, mod)
                 if isinstance(t, Opaque):
@@ -958,6 +962,14 @@ class SpecModel:
                 if v:
                     return v
             return v
+        if isinstance(node, ast.Compare) and len(node.ops) > 1:
+            # a < b <= c  is  (a < b) and (b <= c)
+            left = node.left
+            for op, right in zip(node.ops, node.comparators):
+                if not P(ast.copy_location(ast.Compare(left=left, ops=[op], comparators=[right]), node)):
+                    return False
+                left = right
+            return True
         if isinstance(node, ast.Compare) and len(node.ops) == 1:
             a, b = P(node.left), P(node.comparators[0])
             op = node.ops[0]
